@@ -124,16 +124,12 @@ func findLoadSites(c *Ctx, id string, fn *ssa.Function) []*loadSite {
 			c.Fail(id, "load-store@"+fname(ls.closure), ls.closure.Pos(), "the load callback stores no offset")
 			continue
 		}
-		a := asAlloc(ls.store.Common().Args[2])
-		if a == nil {
-			c.Fail(id, "load-store@"+fname(ls.closure), ls.store.Pos(), "stored offset is not a literal: %s", w.Origin(ls.store.Common().Args[2]))
+		lit, ok := w.litOf(ls.store.Common().Args[2])
+		if !ok {
+			c.Fail(id, "load-store@"+fname(ls.closure), ls.store.Pos(), "stored offset is not a literal (built in place or by a one-level helper): %s", w.Origin(ls.store.Common().Args[2]))
 			continue
 		}
-		ls.table = map[string]string{}
-		if !flattenAlloc(w, a, "", ls.table, 0) {
-			c.Undecided(id, "load-store@"+fname(ls.closure), ls.store.Pos(), "offset literal has a field stored twice")
-			ls.table = nil
-		}
+		ls.table = lit.Table
 	}
 	return out
 }
